@@ -113,6 +113,22 @@ func tokenize(s string) ([]token, error) {
 		switch {
 		case isSpace(c):
 			// ignore
+		case c == '-' && strings.HasPrefix(s[i:], "--"):
+			// comment until the end of the line. SQLite keeps comments in the
+			// stored text of a definition.
+			n := strings.IndexByte(s[i:], '\n')
+			if n < 0 {
+				return res, nil
+			}
+			i += n
+			continue
+		case c == '/' && strings.HasPrefix(s[i:], "/*"):
+			n := strings.Index(s[i+2:], "*/")
+			if n < 0 {
+				return res, nil // SQLite accepts an unterminated comment at the end
+			}
+			i += 2 + n + 2
+			continue
 		case isIDStart(c):
 			bt, bl := readBareword(s[i:])
 			if upperASCII(bt) == "AS" {
